@@ -99,3 +99,637 @@ Proof.
   - inv_ok E. cbn [fst snd]. split; [|reflexivity].
     apply (Refines_sput s _ ss d None RF G' (fr_refl _)). symmetry. apply set_nth_id. exact Hs.
 Qed.
+
+(* ---------- element-wise copy of the reference array with undo: all or nothing ---------- *)
+Lemma s_share_refused ss si d : snd (s_share ss si d) = false -> fst (s_share ss si d) = ss.
+Proof. unfold s_share. destruct (shareable_opt ss (sslot ss si)); [discriminate|reflexivity]. Qed.
+Lemma s_share_done ss si d : snd (s_share ss si d) = true -> fst (s_share ss si d) = sput ss d (sslot ss si).
+Proof. unfold s_share. destruct (shareable_opt ss (sslot ss si)); [reflexivity|discriminate]. Qed.
+
+Lemma sput_undo ss d v : sslot ss d = None -> sput (sput ss d v) d None = ss.
+Proof.
+  intros H. destruct ss as [so sh]. unfold sput, sslot in *. cbn [sobjs shs] in *. f_equal.
+  rewrite set_nth_twice. apply set_nth_id, H.
+Qed.
+
+Lemma slot_ref_other s ss d v i : Refines s (sput ss d v) -> length (shs ss) = NSLOT -> d < NSLOT -> i <> d -> slot s i = sslot ss i.
+Proof.
+  intros RF L Hd Hi. rewrite <- (sslot_ref s _ RF), sslot_sput by lia.
+  destruct (Nat.eqb_spec d i); [congruence|reflexivity].
+Qed.
+
+Lemma sim_refcopy s ss : Refines s ss -> slot s 3 = None -> slot s 4 = None -> slot s 5 = None ->
+  let r1 := s_share ss 0 3 in let r2 := s_share (fst r1) 1 4 in let r3 := s_share (fst r2) 2 5 in
+  exists s' t, p_refcopy s = Ok (s', t) /\
+    Refines s' (if snd r1 && snd r2 && snd r3 then fst r3 else ss) /\
+    t = (if snd r1 && snd r2 && snd r3 then OD else OE).
+Proof.
+  intros RF S3 S4 S5 r1 r2 r3. unfold p_refcopy, p_reffini.
+  assert (B3 : 3 < NSLOT) by (unfold NSLOT; lia). assert (B4 : 4 < NSLOT) by (unfold NSLOT; lia).
+  assert (B5 : 5 < NSLOT) by (unfold NSLOT; lia).
+  pose proof (Refines_len s ss RF) as L.
+  assert (Z3 : sslot ss 3 = None) by (rewrite (sslot_ref s ss RF); assumption).
+  assert (Z4 : sslot ss 4 = None) by (rewrite (sslot_ref s ss RF); assumption).
+  destruct (sim_refinit s ss 0 3 RF S3 B3) as (s1 & t1 & E1 & RF1 & T1). fold r1 in RF1, T1. rewrite E1. cbn [bind].
+  destruct (snd r1) eqn:O1; cbn [andb].
+  2:{ rewrite T1. cbn [is_ret negb]. eexists _, _. split; [reflexivity|]. split; [|reflexivity].
+      unfold r1 in *. rewrite (s_share_refused _ _ _ O1) in RF1. exact RF1. }
+  assert (I1 : is_ret t1 = true) by (rewrite T1; reflexivity). rewrite I1. cbn [negb].
+  pose proof (s_share_done ss 0 3 O1) as D1. fold r1 in D1. rewrite D1 in RF1.
+  assert (S4' : slot s1 4 = None) by (rewrite (slot_ref_other s1 ss 3 _ 4 RF1 L B3) by lia; exact Z4).
+  assert (S5' : slot s1 5 = None) by (rewrite (slot_ref_other s1 ss 3 _ 5 RF1 L B3), (sslot_ref s ss RF) by lia; exact S5).
+  rewrite <- D1 in RF1.
+  destruct (sim_refinit s1 (fst r1) 1 4 RF1 S4' B4) as (s2 & t2 & E2 & RF2 & T2). fold r2 in RF2, T2. rewrite E2. cbn [bind].
+  assert (Z4' : sslot (fst r1) 4 = None) by (rewrite (sslot_ref s1 _ RF1); assumption).
+  destruct (snd r2) eqn:O2; cbn [andb].
+  2:{ rewrite T2. cbn [is_ret negb]. unfold r2 in RF2. rewrite (s_share_refused _ _ _ O2) in RF2.
+      destruct (sim_unref s2 (fst r1) 3 RF2) as (s3 & E3 & RF3). rewrite E3. cbn [bind].
+      eexists _, _. split; [reflexivity|]. split; [|reflexivity].
+      rewrite D1, sput_undo in RF3 by assumption. exact RF3. }
+  assert (I2 : is_ret t2 = true) by (rewrite T2; reflexivity). rewrite I2. cbn [negb].
+  pose proof (s_share_done (fst r1) 1 4 O2) as D2. fold r2 in D2. rewrite D2 in RF2.
+  pose proof (Refines_len s1 _ RF1) as L1.
+  assert (S5'' : slot s2 5 = None) by (rewrite (slot_ref_other s2 (fst r1) 4 _ 5 RF2 L1 B4), (sslot_ref s1 _ RF1) by lia; exact S5').
+  rewrite <- D2 in RF2.
+  destruct (sim_refinit s2 (fst r2) 2 5 RF2 S5'' B5) as (s3 & t3 & E3 & RF3 & T3). fold r3 in RF3, T3. rewrite E3. cbn [bind].
+  destruct (snd r3) eqn:O3.
+  - assert (I3 : is_ret t3 = true) by (rewrite T3; reflexivity). rewrite I3. cbn [negb].
+    eexists _, _. split; [reflexivity|]. split; [exact RF3|reflexivity].
+  - rewrite T3. cbn [is_ret negb]. unfold r3 in RF3. rewrite (s_share_refused _ _ _ O3) in RF3.
+    destruct (sim_unref s3 (fst r2) 4 RF3) as (s4 & E4 & RF4). rewrite E4. cbn [bind].
+    rewrite D2, sput_undo in RF4 by assumption.
+    destruct (sim_unref s4 (fst r1) 3 RF4) as (s5 & E5 & RF5). rewrite E5. cbn [bind].
+    rewrite D1, sput_undo in RF5 by assumption.
+    eexists _, _. split; [reflexivity|]. split; [exact RF5|reflexivity].
+Qed.
+
+(* ---------- array clone / clear ---------- *)
+Lemma sim_arrclone s ss si d : Refines s ss -> d < NSLOT ->
+  exists s' t, p_arrclone s si d = Ok (s', t) /\ Refines s' (fst (sexec ss (OArrClone si d))) /\
+    t = snd (sexec ss (OArrClone si d)).
+Proof.
+  intros RF Hd. pose proof (Refines_good _ _ RF) as G.
+  destruct (p_arrclone_ok s si d G Hd) as (s' & t & E & G' & _). exists s', t. split; [exact E|].
+  unfold p_arrclone in E. cbn [sexec]. rewrite !(sslot_ref s ss RF).
+  destruct (eq_opt (slot s si) (slot s d)) eqn:Q.
+  { inv_ok E. cbn [fst snd]. split; [exact RF|reflexivity]. }
+  destruct (retain s (slot s si)) as [[s1 ok]| |] eqn:R; cbn [bind] in E; try discriminate.
+  destruct (retain_fr _ _ _ _ R) as [F1 H1].
+  pose proof (retain_res s ss _ _ _ RF (fun o Ho => H3_slot s si o Ho) R) as Q1. rewrite <- (sslot_ref s ss RF) in Q1.
+  unfold s_share. rewrite <- Q1. destruct ok; cbn [negb fst snd] in *.
+  2:{ inv_ok E. split; [|reflexivity]. apply (Refines_same s _ ss RF G' F1 H1). }
+  unfold m_take in E. cbn beta iota zeta in E. rewrite (slot_hs s s1 d H1) in E.
+  rewrite (sslot_ref s ss RF).
+  assert (HH : forall s4, fr (m_put (mkst (objs s1) (set_nth d None (hs s1)) (o2l (slot s d) ++ pend s1) (elog s1)) d (slot s si)) s4 ->
+           hs s4 = hs (m_put (mkst (objs s1) (set_nth d None (hs s1)) (o2l (slot s d) ++ pend s1) (elog s1)) d (slot s si)) ->
+           Good s4 -> Refines s4 (sput ss d (slot s si))).
+  { intros s4 F4 H4 G4. apply (Refines_sput s s4 ss d _ RF G4).
+    - apply (fr_trans _ _ _ F1). exact F4.
+    - rewrite H4. cbn [m_put hs]. rewrite H1. apply set_nth_twice. }
+  destruct (slot s d) as [a|] eqn:Sd.
+  - destruct (m_unref _ a) as [s4| |] eqn:U; cbn [bind] in E; try discriminate. inv_ok E.
+    destruct (m_unref_fr _ _ _ U) as [F4 H4]. split; [apply HH; assumption|].
+    destruct (slot s si); reflexivity.
+  - inv_ok E. split; [apply HH; [apply fr_refl|reflexivity|assumption]|]. destruct (slot s si); reflexivity.
+Qed.
+
+Lemma sim_arrclear s ss d : Refines s ss ->
+  exists s' t, p_arrclear s d = Ok (s', t) /\ Refines s' (sput ss d None) /\
+    t = ORet (if is_none (sslot ss d) then 0 else 2).
+Proof.
+  intros RF. pose proof (Refines_good _ _ RF) as G.
+  destruct (p_arrclear_ok s d G) as (s' & t & E & G' & _). exists s', t. split; [exact E|].
+  unfold p_arrclear, m_take in E. cbn beta iota zeta in E. rewrite (sslot_ref s ss RF).
+  destruct (slot s d) as [a|] eqn:Sd; cbn [is_none].
+  - destruct (m_unref _ a) as [s4| |] eqn:U; cbn [bind] in E; try discriminate. inv_ok E.
+    destruct (m_unref_fr _ _ _ U) as [F4 H4]. split; [|reflexivity].
+    apply (Refines_sput s _ ss d None RF G' F4). rewrite H4. reflexivity.
+  - inv_ok E. split; [|reflexivity]. apply (Refines_sput s _ ss d None RF G' (fr_refl _)). reflexivity.
+Qed.
+
+(* ---------- creation ---------- *)
+Lemma find_ref p : forall l l' i, Forall2 orel l l' -> find_kind p l i = sfind p l' i.
+Proof.
+  intros l l' i F. revert i. induction F as [|x y l l' (Ky & _) F IH]; intros i; [reflexivity|].
+  cbn [find_kind sfind]. rewrite Ky. destruct (p (okind x)); [reflexivity|apply IH].
+Qed.
+
+Lemma Sk_new s1 s2 ss k c inner h :
+  Sk s1 ss -> objs s2 = objs s1 ++ [mkobj k c 0%N false inner] ->
+  Sk s2 (mksst (sobjs ss ++ [mksobj k 0%N inner]) h).
+Proof.
+  intros K E. unfold Sk. rewrite E. cbn [sobjs]. apply Forall2_app; [exact K|]. constructor; [|constructor].
+  unfold orel. cbn. auto.
+Qed.
+
+Lemma sim_new s ss k d : Refines s ss -> slot s d = None -> d < NSLOT ->
+  exists s', p_new s k d = Ok (s', OD) /\ Refines s' (fst (sexec ss (ONew k d))).
+Proof.
+  intros RF Hs Hd. pose proof (Refines_good _ _ RF) as G. pose proof RF as (_ & HS & K).
+  destruct (p_new_ok s k d G Hs Hd) as (s' & E & G' & _). exists s'. split; [exact E|].
+  unfold p_new in E. cbn [sexec]. rewrite <- (find_ref is_static (objs s) (sobjs ss) 0 K).
+  destruct (if is_static k then find_kind is_static (objs s) 0 else None) as [id|].
+  - inv_ok E. cbn [fst]. apply (Refines_sput s _ ss d (Some id) RF G' (fr_refl _)). reflexivity.
+  - unfold m_new in E. cbn beta iota zeta in E. inv_ok E. unfold snew. cbn [fst sput sobjs shs].
+    split; [assumption|]. split; [cbn [m_put hs shs]; rewrite HS, (Sk_len s ss K); reflexivity|].
+    eapply Sk_new; [exact K|reflexivity].
+Qed.
+
+(* mpt_meta_buffer: retain the source buffer (when it can be shared), create the owner *)
+Lemma sim_metabuf s ss src d : Refines s ss -> slot s d = None -> d < NSLOT ->
+  (forall b, src = Some b -> 0 < H3 s b /\ exists y, nth_error (objs s) b = Some y /\ is_buf (okind y) = true) ->
+  exists s1 id, mk_metabuf s src = Ok (s1, id) /\ Refines (m_put s1 d (Some id)) (s_metabuf ss src d).
+Proof.
+  intros RF Hs Hd Hsrc. pose proof (Refines_good _ _ RF) as G. pose proof RF as (_ & HS & K).
+  destruct (mk_metabuf_ok s src d G Hs Hd Hsrc) as (s1 & id & E & G' & _). exists s1, id. split; [exact E|].
+  unfold mk_metabuf in E. destruct (retain s src) as [[s0 ok]| |] eqn:R; cbn [bind] in E; try discriminate.
+  destruct (retain_fr _ _ _ _ R) as [F1 H1].
+  pose proof (retain_res s ss _ _ _ RF (fun o Ho => proj1 (Hsrc o Ho)) R) as Q1.
+  unfold m_new in E. inv_ok E. unfold s_metabuf, snew. rewrite <- Q1. cbn [sput sobjs shs].
+  split; [assumption|]. destruct F1 as [L1 F1'].
+  split; [cbn [m_put hs shs]; rewrite H1, HS, L1, (Sk_len s ss K); reflexivity|].
+  eapply Sk_new; [apply (Sk_fr s s0 ss K (conj L1 F1'))|reflexivity].
+Qed.
+
+Lemma sim_clone s ss o d si : Refines s ss -> slot s si = Some o -> slot s d = None -> d < NSLOT ->
+  exists s' t, p_clone s o d = Ok (s', t) /\ Refines s' (fst (sexec ss (OClone si d))) /\ t = snd (sexec ss (OClone si d)).
+Proof.
+  intros RF S Hs Hd. pose proof (Refines_good _ _ RF) as G. pose proof RF as ((I & P) & HS & K).
+  cbn [sexec]. rewrite (sslot_ref s ss RF), S.
+  destruct (inv_live s o I (H3_slot s si o S)) as (x & E & D).
+  destruct (Sk_l s ss o x K E) as (y & Ey & Ky & _ & _ & Iy). rewrite Ey, Ky.
+  unfold p_clone. rewrite (live_ok s o x E D). cbn [bind].
+  assert (N : forall k, exists s' t, (let '(s1, id) := m_new s k None in Ok (m_put s1 d (Some id), OD)) = Ok (s', t) /\
+             Refines s' (fst (let '(s1, id) := snew ss k None in (sput s1 d (Some id), OD))) /\
+             t = snd (let '(s1, id) := snew ss k None in (sput s1 d (Some id), OD))).
+  { intros k. destruct (new_put_ok s k None d I P Hs Hd) as (G1 & _ & _); [discriminate|].
+    unfold m_new in *. cbn beta iota zeta in *. eexists _, _. split; [reflexivity|]. split; [|reflexivity].
+    unfold snew. cbn [fst sput sobjs shs].
+    split; [assumption|]. split; [cbn [m_put hs shs]; rewrite HS, (Sk_len s ss K); reflexivity|].
+    eapply Sk_new; [exact K|reflexivity]. }
+  assert (Z : exists s' t, Ok (s, OE) = Ok (s', t) /\ Refines s' (fst (ss, OE)) /\ t = snd (ss, OE)).
+  { eexists _, _. split; [reflexivity|]. split; [exact RF|reflexivity]. }
+  destruct (okind x) eqn:Kx; try exact Z; try apply N.
+  pose proof (inv_obj s I o x E) as (_ & C2 & _). rewrite (Iy D).
+  destruct (sim_metabuf s ss (oinner x) d RF Hs Hd) as (s1 & id & E1 & RF1).
+  { intros b Hb. split; [apply (H3_inner s o x b E Hb)|apply C2, Hb]. }
+  rewrite E1. cbn [bind]. eexists _, _. split; [reflexivity|]. split; [exact RF1|reflexivity].
+Qed.
+
+(* ---------- detach ---------- *)
+Lemma sim_detach s ss a o : Refines s ss -> slot s a = Some o -> a < NSLOT ->
+  kind_is (kind_at s) (slot s a) is_libbuf = true ->
+  exists s' t, p_detach s a o = Ok (s', t) /\ Refines s' (fst (sexec ss (ODetach a))) /\ t = snd (sexec ss (ODetach a)).
+Proof.
+  intros RF S Ha Hk. pose proof (Refines_good _ _ RF) as G. pose proof RF as ((I & P) & HS & K).
+  destruct (p_detach_ok s a o G S Ha) as (s' & t & E & G' & _). exists s', t. split; [exact E|].
+  cbn [sexec]. rewrite (sslot_ref s ss RF), S.
+  destruct (inv_live s o I (H3_slot s a o S)) as (x & Ex & D).
+  destruct (kind_is_spec s _ _ Hk) as (o0 & x0 & S0 & E0 & B0). rewrite S in S0. injection S0 as <-.
+  rewrite Ex in E0. injection E0 as <-.
+  assert (Kc : cls_of (okind x) = Counted) by (destruct (okind x); try discriminate; reflexivity).
+  destruct (stotal_cnt s ss RF o x Ex D Kc) as (-> & _).
+  unfold p_detach in E. rewrite (live_ok s o x Ex D) in E. cbn [bind] in E.
+  destruct (ocnt x <? 2)%N.
+  { inv_ok E. split; [exact RF|reflexivity]. }
+  unfold m_new, m_take in E. cbn beta iota zeta in E.
+  destruct (m_unref _ o) as [s3| |] eqn:U; cbn [bind] in E; try discriminate. inv_ok E.
+  destruct (m_unref_fr _ _ _ U) as [F3 H3']. unfold snew. cbn [fst snd sput sobjs shs]. split; [|reflexivity].
+  split; [assumption|]. split; [unfold sput; cbn [m_put hs shs sobjs]; rewrite H3'; cbn [hs]; rewrite HS, (Sk_len s ss K); symmetry; apply set_nth_twice|].
+  eapply Sk_fr; [|exact F3]. eapply Sk_new; [exact K|reflexivity].
+Qed.
+
+Lemma sim_detachf s ss a o : Refines s ss -> slot s a = Some o ->
+  kind_is (kind_at s) (slot s a) is_libbuf = true ->
+  exists s' t, p_detachf s o = Ok (s', t) /\ Refines s' ss /\ t = snd (sexec ss (ODetachF a)).
+Proof.
+  intros RF S Hk. pose proof (Refines_good _ _ RF) as G. pose proof RF as ((I & P) & HS & K).
+  destruct (p_detachf_ok s a o G S Hk) as (s' & t & E & G' & _). exists s', t. split; [exact E|].
+  cbn [sexec]. rewrite (sslot_ref s ss RF), S.
+  destruct (inv_live s o I (H3_slot s a o S)) as (x & Ex & D).
+  destruct (kind_is_spec s _ _ Hk) as (o0 & x0 & S0 & E0 & B0). rewrite S in S0. injection S0 as <-.
+  rewrite Ex in E0. injection E0 as <-.
+  assert (Kc : cls_of (okind x) = Counted) by (destruct (okind x); try discriminate; reflexivity).
+  destruct (stotal_cnt s ss RF o x Ex D Kc) as (-> & _).
+  unfold p_detachf in E. rewrite (live_ok s o x Ex D) in E. cbn [bind] in E.
+  destruct (ocnt x <? 2)%N.
+  { inv_ok E. split; [exact RF|reflexivity]. }
+  destruct (lower (ocnt x)) as [c1 r]. destruct (r =? 0)%N; [discriminate|].
+  destruct (raise c1) as [c2 r2]. inv_ok E. cbn [snd]. split; [|reflexivity].
+  apply (Refines_same s _ ss RF G'); [|reflexivity].
+  apply (fr_set s _ o x (with_cnt x c2) Ex (ofr_cnt x c2)). reflexivity.
+Qed.
+
+(* ---------- one object of the model and its record in the specification change together ---------- *)
+Lemma Sk_upd s1 s3 ss o x' y' h : Sk s1 ss -> o < length (objs s1) ->
+  objs s3 = set_nth o x' (objs s1) -> orel x' y' -> Sk s3 (mksst (set_nth o y' (sobjs ss)) h).
+Proof.
+  intros K Ho E O. unfold Sk. rewrite E. cbn [sobjs]. apply F2_of_nth.
+  - rewrite !length_set_nth. apply (F2_length orel _ _ K).
+  - intros o' x0 y0. rewrite !nth_error_set_nth. destruct (Nat.eqb_spec o o') as [<-|n].
+    + destruct (nth_error (objs s1) o) as [x|] eqn:Ex; [|discriminate].
+      destruct (Sk_l s1 ss o x K Ex) as (y & Ey & _). rewrite Ey. intros X Y. injection X as <-. injection Y as <-. exact O.
+    + intros Ex Ey. destruct (Sk_l s1 ss o' x0 K Ex) as (y & Ey' & Oy). rewrite Ey in Ey'. injection Ey' as <-. exact Oy.
+Qed.
+
+(* ---------- the array member of a rawdata object ---------- *)
+Lemma put_take_objs s1 o x1 v s3 : nth_error (objs s1) o = Some x1 -> odead x1 = false ->
+  put_inner (take_inner s1 o x1) o v = Ok s3 -> objs s3 = set_nth o (with_inner x1 v) (objs s1) /\ hs s3 = hs s1.
+Proof.
+  intros E D. unfold put_inner, live, take_inner. cbn [objs hs pend elog].
+  rewrite nth_error_set_nth, Nat.eqb_refl, E. cbn [with_inner odead]. rewrite D. cbn [bind].
+  intros X. inv_ok X. cbn [objs hs]. split; [rewrite set_nth_twice; reflexivity|reflexivity].
+Qed.
+
+Lemma sim_setinner s ss m o a : Refines s ss -> slot s m = Some o ->
+  kind_is (kind_at s) (slot s m) is_raw = true ->
+  (is_none (slot s a) || kind_is (kind_at s) (slot s a) is_buf) = true ->
+  exists s' t, p_setinner s o a = Ok (s', t) /\ Refines s' (fst (sexec ss (OSetInner m a))) /\
+    t = snd (sexec ss (OSetInner m a)).
+Proof.
+  intros RF S Hk Ha. pose proof (Refines_good _ _ RF) as G. pose proof RF as ((I & P) & HS & K).
+  destruct (p_setinner_ok s m o a G S Hk Ha) as (s' & t & E & G' & _). exists s', t. split; [exact E|].
+  cbn [sexec]. rewrite !(sslot_ref s ss RF), S.
+  destruct (inv_live s o I (H3_slot s m o S)) as (x & Ex & D).
+  destruct (Sk_l s ss o x K Ex) as (y & Ey & Ky & Xy & Sy & Iy). rewrite Ey, (Iy D).
+  unfold p_setinner in E. rewrite (live_ok s o x Ex D) in E. cbn [bind] in E.
+  destruct (eq_opt (slot s a) (oinner x)).
+  { inv_ok E. split; [exact RF|reflexivity]. }
+  destruct (retain s (slot s a)) as [[s1 ok]| |] eqn:R; cbn [bind] in E; try discriminate.
+  destruct (retain_fr _ _ _ _ R) as [F1 H1].
+  pose proof (retain_res s ss _ _ _ RF (fun b Hb => H3_slot s a b Hb) R) as Q1.
+  rewrite <- Q1. destruct ok; cbn [negb fst snd] in *.
+  2:{ inv_ok E. split; [|reflexivity]. apply (Refines_same s _ ss RF G' F1 H1). }
+  destruct (live s1 o) as [x1| |] eqn:L1; cbn [bind] in E; try discriminate.
+  destruct (live_inv s1 o x1 L1) as [E1 D1].
+  destruct (put_inner (take_inner s1 o x1) o (slot s a)) as [s3| |] eqn:PI; cbn [bind] in E; try discriminate.
+  destruct (put_take_objs s1 o x1 _ s3 E1 D1 PI) as [O3 H3'].
+  destruct F1 as [L1' F1']. destruct (F1' o x Ex) as (x1' & E1' & K1 & X1 & _). rewrite E1 in E1'. injection E1' as <-.
+  assert (K3 : Sk s3 (sset_inner ss o (slot s a))).
+  { unfold sset_inner. rewrite Ey. apply (Sk_upd s1 s3 ss o (with_inner x1 (slot s a)) _ _ (Sk_fr s s1 ss K (conj L1' F1'))).
+    - apply nth_error_Some. congruence.
+    - exact O3.
+    - unfold orel. cbn [skind sext sinner with_inner okind oext odead oinner]. rewrite K1, X1. auto. }
+  assert (HS3 : shs (sset_inner ss o (slot s a)) = hs s3).
+  { unfold sset_inner. rewrite Ey. cbn [shs]. congruence. }
+  destruct (oinner x) as [b|].
+  - destruct (m_unref s3 b) as [s4| |] eqn:U; cbn [bind] in E; try discriminate. inv_ok E.
+    destruct (m_unref_fr _ _ _ U) as [F4 H4]. cbn [is_none]. split; [|destruct (slot s a); reflexivity].
+    split; [assumption|]. split; [congruence|]. apply (Sk_fr s3 _ _ K3 F4).
+  - inv_ok E. cbn [is_none]. split; [|destruct (slot s a); reflexivity].
+    split; [assumption|]. split; assumption.
+Qed.
+
+(* ---------- counters written by the environment ---------- *)
+Lemma sim_force s ss i o v : Refines s ss -> slot s i = Some o -> kind_is (kind_at s) (slot s i) is_counted = true ->
+  (1 <=? v)%N = true -> (v <? W)%N = true -> (held s o <=? v)%N = true ->
+  exists s' t, p_force s o v = Ok (s', t) /\ Refines s' (fst (sexec ss (OForce i v))) /\ t = snd (sexec ss (OForce i v)).
+Proof.
+  intros RF S Hk H1 Hw Hh. pose proof (Refines_good _ _ RF) as G. pose proof RF as ((I & P) & HS & K).
+  destruct (p_force_ok s i o v G S Hk H1 Hw Hh) as (s' & t & E & G' & _). exists s', t. split; [exact E|].
+  cbn [sexec]. rewrite (sslot_ref s ss RF), S.
+  destruct (inv_live s o I (H3_slot s i o S)) as (x & Ex & D).
+  destruct (Sk_l s ss o x K Ex) as (y & Ey & Ky & Xy & Sy & Iy). rewrite Ey.
+  destruct (kind_is_spec s _ _ Hk) as (o0 & x0 & S0 & E0 & B0). rewrite S in S0. injection S0 as <-.
+  rewrite Ex in E0. injection E0 as <-.
+  unfold p_force in E. rewrite (live_ok s o x Ex D) in E. cbn [bind] in E. inv_ok E.
+  cbn [fst snd]. split; [|reflexivity]. split; [assumption|]. split; [cbn [shs]; exact HS|].
+  eapply (Sk_upd s); [exact K|apply nth_error_Some; congruence|reflexivity|].
+  unfold orel. cbn [skind sext sinner okind oext odead oinner]. rewrite (held_ref s ss RF), D.
+  split; [assumption|]. split; [reflexivity|]. split; [|intros _; apply Iy, D].
+  unfold is_counted, is_static in *. destruct (cls_of (okind x)); discriminate.
+Qed.
+
+(* the harness gives every forced counter back *)
+Definition ufr (s s' : st) : Prop :=
+  length (objs s') = length (objs s) /\
+  forall o x, nth_error (objs s) o = Some x -> exists x', nth_error (objs s') o = Some x' /\
+    okind x' = okind x /\ (odead x' = false -> odead x = false /\ oinner x' = oinner x) /\
+    (oext x' = oext x \/ (oext x' = 0%N /\ is_static (okind x) = false)).
+
+Lemma ufr_refl s : ufr s s.
+Proof. split; [reflexivity|]. intros o x E. exists x. auto. Qed.
+Lemma ufr_trans s1 s2 s3 : ufr s1 s2 -> ufr s2 s3 -> ufr s1 s3.
+Proof.
+  intros [L1 F1] [L2 F2]. split; [congruence|]. intros o x E.
+  destruct (F1 o x E) as (x' & E' & K1 & D1 & X1). destruct (F2 o x' E') as (x'' & E'' & K2 & D2 & X2).
+  exists x''. split; [assumption|]. split; [congruence|]. split.
+  - intros D. destruct (D2 D) as [Dy Iy]. destruct (D1 Dy) as [Dx Ix]. split; [assumption|congruence].
+  - rewrite K1 in X2. destruct X2 as [X2|X2]; [|right; assumption]. destruct X1 as [X1|[X1 NS]]; [left; congruence|right].
+    split; [congruence|assumption].
+Qed.
+Lemma fr_ufr s s' : fr s s' -> ufr s s'.
+Proof.
+  intros [L F]. split; [assumption|]. intros o x E. destruct (F o x E) as (x' & E' & K1 & X1 & D1). exists x'. auto.
+Qed.
+Lemma ufr_set s s' i x x' : nth_error (objs s) i = Some x -> objs s' = set_nth i x' (objs s) ->
+  okind x' = okind x -> odead x = false -> oinner x' = oinner x -> oext x' = 0%N -> is_static (okind x) = false -> ufr s s'.
+Proof.
+  intros E Eo Kx D Ix X NS. split; [rewrite Eo; apply length_set_nth|]. intros o x0 E0. rewrite Eo, nth_error_set_nth.
+  destruct (Nat.eqb_spec i o) as [<-|n].
+  - rewrite E. exists x'. split; [reflexivity|]. rewrite E in E0. injection E0 as <-. auto.
+  - exists x0. auto.
+Qed.
+
+Definition ext_done (s : st) (i : nat) : Prop := forall o x, o < i -> nth_error (objs s) o = Some x -> oext x = 0%N.
+
+Lemma ext_done_ufr s s' i : ufr s s' -> ext_done s i -> ext_done s' i.
+Proof.
+  intros [L F] Dn o x' Ho E'. assert (Hl : o < length (objs s)) by (rewrite <- L; apply nth_error_Some; congruence).
+  destruct (nth_error (objs s) o) as [x|] eqn:E; [|apply nth_error_None in E; lia].
+  destruct (F o x E) as (x'' & E'' & _ & _ & X). rewrite E' in E''. injection E'' as <-.
+  destruct X as [X|[X _]]; [rewrite X; apply (Dn o x Ho E)|exact X].
+Qed.
+Lemma static_ufr s s' : ufr s s' -> static_unforced s -> static_unforced s'.
+Proof.
+  intros [L F] SU o x' E' St. assert (Hl : o < length (objs s)) by (rewrite <- L; apply nth_error_Some; congruence).
+  destruct (nth_error (objs s) o) as [x|] eqn:E; [|apply nth_error_None in E; lia].
+  destruct (F o x E) as (x'' & E'' & Kx & _ & X). rewrite E' in E''. injection E'' as <-.
+  destruct X as [X|[X _]]; [rewrite X; apply (SU o x E); congruence|exact X].
+Qed.
+
+Lemma unforce_sim n : forall i s, Good s -> static_unforced s -> ext_done s i -> length (objs s) <= i + n ->
+  exists s', unforce s i n = Ok s' /\ Good s' /\ ufr s s' /\ hs s' = hs s /\ ext_done s' (length (objs s')).
+Proof.
+  induction n as [|n IH]; intros i s G SU Dn Ln.
+  { exists s. split; [reflexivity|]. split; [assumption|]. split; [apply ufr_refl|]. split; [reflexivity|].
+    intros o x Ho. apply Dn. lia. }
+  pose proof G as [I P]. cbn [unforce].
+  destruct (nth_error (objs s) i) as [x|] eqn:E.
+  2:{ exists s. split; [reflexivity|]. split; [assumption|]. split; [apply ufr_refl|]. split; [reflexivity|].
+      intros o x Ho. apply Dn. apply nth_error_None in E. lia. }
+  pose proof (inv_obj s I i x E) as (C1 & C2 & C3).
+  assert (STEP : forall s1, Good s1 -> ufr s s1 -> hs s1 = hs s ->
+            (forall x1, nth_error (objs s1) i = Some x1 -> oext x1 = 0%N) ->
+            exists s', unforce s1 (S i) n = Ok s' /\ Good s' /\ ufr s s' /\ hs s' = hs s /\ ext_done s' (length (objs s'))).
+  { intros s1 G1 U1 H1 X1.
+    destruct (IH (S i) s1 G1 (static_ufr s s1 U1 SU)) as (s' & E' & G' & U' & H' & Dn').
+    - intros o x1 Ho E1. destruct (Nat.eq_dec o i) as [->|n0]; [apply X1, E1|].
+      apply (ext_done_ufr s s1 i U1 Dn o x1); [lia|assumption].
+    - destruct U1 as [L1 _]. lia.
+    - exists s'. split; [assumption|]. split; [assumption|]. split; [eapply ufr_trans; eassumption|]. split; [congruence|assumption]. }
+  destruct (odead x) eqn:D; cbn [orb].
+  { apply (STEP s G (ufr_refl s) eq_refl). intros x1 E1. rewrite E in E1. injection E1 as <-. apply C3. }
+  destruct (is_counted (okind x)) eqn:B; cbn [negb].
+  2:{ apply (STEP s G (ufr_refl s) eq_refl). intros x1 E1. rewrite E in E1. injection E1 as <-.
+      unfold is_counted in B. destruct (cls_of (okind x)) eqn:Kc; [discriminate|apply C3|].
+      apply (SU i x E). unfold is_static. rewrite Kc. reflexivity. }
+  assert (Kc : cls_of (okind x) = Counted) by (unfold is_counted in B; destruct (cls_of (okind x)); try discriminate; reflexivity).
+  assert (NS : is_static (okind x) = false) by (unfold is_static; rewrite Kc; reflexivity).
+  rewrite Kc in C3. destruct C3 as (Hc & H0 & Hw).
+  rewrite held_H3.
+  destruct (N.eqb_spec (N.of_nat (H3 s i)) 0) as [Z|Z].
+  - (* kept only by the environment: release it *)
+    set (x' := mkobj (okind x) 1%N 0%N false (oinner x)).
+    assert (R : Inv (add_pend (set_obj s i x') i) /\ same_kinds s (add_pend (set_obj s i x') i)).
+    { apply (Inv_upd1 s _ i x x' I E); simp_st; cbn [x' okind oinner odead oext ocnt]; try reflexivity; try assumption.
+      - apply I.
+      - intros o' n0. rewrite H3_add_pend, (H3_set_obj s i x _ o' E) by reflexivity.
+        destruct (Nat.eqb_spec i o'); [congruence|lia].
+      - rewrite Kc. rewrite H3_add_pend, (H3_set_obj s i x _ i E), Nat.eqb_refl by reflexivity.
+        split; [lia|]. split; reflexivity. }
+    destruct R as [R1 _].
+    destruct (m_unref_ok (add_pend (set_obj s i x') i) i R1) as (s1 & E1 & I1 & _ & H1 & P1); [left; reflexivity|].
+    rewrite E1. cbn [bind].
+    assert (G1 : Good s1).
+    { split; [assumption|]. rewrite P1. cbn [add_pend pend set_obj]. rewrite remove_one_cons. exact P. }
+    destruct (m_unref_fr _ _ _ E1) as [F1 _].
+    assert (U0 : ufr s (add_pend (set_obj s i x') i)) by (apply (ufr_set s _ i x x' E); try reflexivity; assumption).
+    apply (STEP s1 G1 (ufr_trans _ _ _ U0 (fr_ufr _ _ F1))); [rewrite H1; reflexivity|].
+    intros x1 Ex1. destruct F1 as [_ F1]. destruct (F1 i x') as (x1' & Ex1' & _ & X1 & _).
+    { cbn [add_pend set_obj objs]. rewrite nth_error_set_nth, Nat.eqb_refl, E. reflexivity. }
+    rewrite Ex1 in Ex1'. injection Ex1' as <-. exact X1.
+  - set (x' := mkobj (okind x) (N.of_nat (H3 s i)) 0%N false (oinner x)).
+    assert (R : Inv (set_obj s i x') /\ same_kinds s (set_obj s i x')).
+    { apply (Inv_upd1 s _ i x x' I E); simp_st; cbn [x' okind oinner odead oext ocnt]; try reflexivity; try assumption.
+      - apply I.
+      - intros o' n0. apply (H3_set_obj s i x); [assumption|reflexivity].
+      - rewrite Kc. rewrite (H3_set_obj s i x _ i E) by reflexivity. split; [lia|]. split; lia. }
+    destruct R as [R1 _].
+    apply (STEP (set_obj s i x') (conj R1 P)); [apply (ufr_set s _ i x x' E); try reflexivity; assumption|reflexivity|].
+    intros x1 Ex1. cbn [set_obj objs] in Ex1. rewrite nth_error_set_nth, Nat.eqb_refl, E in Ex1. injection Ex1 as <-. reflexivity.
+Qed.
+
+Lemma sim_unforce s ss : Refines s ss ->
+  exists s', unforce s 0 (length (objs s)) = Ok s' /\ Refines s' (fst (sexec ss OUnforce)).
+Proof.
+  intros RF. pose proof (Refines_good _ _ RF) as G. pose proof RF as (_ & HS & K).
+  destruct (unforce_sim (length (objs s)) 0 s G (Refines_static s ss RF)) as (s' & E & G' & [L U] & H' & Dn).
+  { intros o x Ho. lia. } { lia. }
+  exists s'. split; [exact E|]. cbn [sexec fst]. split; [assumption|]. split; [cbn [shs]; congruence|].
+  unfold Sk. cbn [sobjs]. apply F2_of_nth; [rewrite map_length, L; apply (F2_length orel _ _ K)|].
+  intros o x' y' Ex' Ey'. rewrite nth_error_map in Ey'. destruct (nth_error (sobjs ss) o) as [y|] eqn:Ey; [|discriminate].
+  injection Ey' as <-. destruct (Sk_r s ss o y K Ey) as (x & Ex & Ky & Xy & Sy & Iy).
+  destruct (U o x Ex) as (x'' & Ex'' & Kx & Dx & _). rewrite Ex' in Ex''. injection Ex'' as <-.
+  assert (X0 : oext x' = 0%N) by (apply (Dn o x'); [apply nth_error_Some; congruence|assumption]).
+  unfold orel. cbn [skind sext sinner]. rewrite Kx, X0. split; [assumption|]. split; [reflexivity|]. split; [reflexivity|].
+  intros D'. destruct (Dx D') as [D Ix]. rewrite Ix. apply Iy, D.
+Qed.
+
+(* ---------- reference<T> ---------- *)
+Lemma replace_fr2 s1 d v (t0 : out) s' (t : out) :
+  (let '(s2, old) := m_take s1 d in do s3 <- unref_opt s2 old; Ok (m_put s3 d v, t0)) = Ok (s', t) ->
+  fr s1 s' /\ hs s' = set_nth d v (hs s1) /\ t = t0.
+Proof.
+  unfold m_take. cbn beta iota zeta.
+  destruct (unref_opt _ _) as [s3| |] eqn:U; cbn [bind]; try discriminate.
+  intros X; inv_ok X. apply unref_opt_fr in U. destruct U as [F H]. split; [exact F|]. split; [|reflexivity].
+  cbn [m_put hs]. rewrite H. cbn [hs]. apply set_nth_twice.
+Qed.
+
+Lemma sim_xnew s ss d : Refines s ss -> d < NSLOT ->
+  exists s', x_new s d = Ok (s', OD) /\ Refines s' (fst (sexec ss (XNew d))).
+Proof.
+  intros RF Hd. pose proof (Refines_good _ _ RF) as G. pose proof RF as (_ & HS & K).
+  destruct (x_new_ok s d G Hd) as (s' & t & E & G' & _).
+  unfold x_new, m_new in E. cbn beta iota zeta in E.
+  destruct (replace_fr2 _ _ _ _ _ _ E) as (F & H & ->). exists s'. split; [unfold x_new, m_new; exact E|].
+  cbn [sexec]. unfold snew, sput. cbn [fst sobjs shs]. split; [assumption|].
+  split; [rewrite H; cbn [hs]; rewrite HS, (Sk_len s ss K); reflexivity|].
+  eapply Sk_fr; [|exact F]. eapply Sk_new; [exact K|reflexivity].
+Qed.
+
+Lemma sim_xassign s ss si d : Refines s ss -> d < NSLOT ->
+  exists s', x_assign s si d = Ok (s', OD) /\ Refines s' (fst (sexec ss (XAssign si d))).
+Proof.
+  intros RF Hd. pose proof (Refines_good _ _ RF) as G.
+  destruct (x_assign_ok s si d G Hd) as (s' & t & E & G' & _).
+  cbn [sexec]. rewrite !(sslot_ref s ss RF). unfold x_assign in *.
+  destruct (eq_opt (slot s si) (slot s d)).
+  { exists s. split; [reflexivity|exact RF]. }
+  destruct (retain s (slot s si)) as [[s1 ok]| |] eqn:R; cbn [bind] in *; try discriminate.
+  destruct (retain_fr _ _ _ _ R) as [F1 H1].
+  pose proof (retain_res s ss _ _ _ RF (fun o Ho => H3_slot s si o Ho) R) as Q. rewrite <- Q.
+  destruct (replace_fr2 _ _ _ _ _ _ E) as (F & H & ->). exists s'. split; [exact E|].
+  cbn [fst]. apply (Refines_sput s s' ss d _ RF G' (fr_trans _ _ _ F1 F)). congruence.
+Qed.
+
+Lemma x_copy_unfold s si d : x_copy s si d = (do '(s2, _) <- p_unref s d; x_assign s2 si d).
+Proof.
+  unfold x_copy, p_unref. destruct (m_take s d) as [s1 old]. destruct (unref_opt s1 old); reflexivity.
+Qed.
+
+Lemma sput_twice ss d v w : sput (sput ss d v) d w = sput ss d w.
+Proof. unfold sput. cbn [sobjs shs]. rewrite set_nth_twice. reflexivity. Qed.
+
+Lemma eq_opt_none a : eq_opt a None = true -> a = None.
+Proof. destruct a; [discriminate|reflexivity]. Qed.
+
+Lemma sim_xcopy s ss si d : Refines s ss -> d < NSLOT ->
+  exists s', x_copy s si d = Ok (s', OD) /\ Refines s' (fst (sexec ss (XCopy si d))).
+Proof.
+  intros RF Hd. rewrite x_copy_unfold.
+  destruct (sim_unref s ss d RF) as (s2 & E2 & RF2). rewrite E2. cbn [bind].
+  destruct (sim_xassign s2 (sput ss d None) si d RF2 Hd) as (s' & E & RF'). exists s'. split; [exact E|].
+  cbn [sexec fst] in *.
+  assert (Zd : sslot (sput ss d None) d = None).
+  { rewrite sslot_sput by (rewrite (Refines_len s ss RF); assumption). rewrite Nat.eqb_refl. reflexivity. }
+  rewrite Zd in RF'. destruct (eq_opt (sslot (sput ss d None) si) None) eqn:Q; [|exact RF'].
+  rewrite (eq_opt_none _ Q). cbn [shareable_opt]. rewrite sput_twice. exact RF'.
+Qed.
+
+Lemma sim_xmove s ss si d : Refines s ss -> d < NSLOT ->
+  exists s', x_move s si d = Ok (s', OD) /\ Refines s' (sput (sput ss si None) d (sslot ss si)).
+Proof.
+  intros RF Hd. pose proof (Refines_good _ _ RF) as G. pose proof RF as (_ & HS & K).
+  destruct (x_move_ok s si d G Hd) as (s' & t & E & G' & _).
+  unfold x_move in *. unfold m_take at 1 in E. unfold m_take at 1. cbn beta iota zeta in *.
+  destruct (replace_fr2 _ _ _ _ _ _ E) as (F & H & ->). exists s'. split; [exact E|].
+  rewrite (sslot_ref s ss RF). split; [assumption|]. split; [unfold sput; cbn [shs]; rewrite H, HS; reflexivity|].
+  apply (Sk_fr s s' _ K). exact F.
+Qed.
+
+Lemma sim_xdetach s ss si d : Refines s ss -> d < NSLOT -> slot s d = None -> si <> d ->
+  exists s', x_detach s si d = Ok (s', OD) /\ Refines s' (sput (sput ss si None) d (sslot ss si)).
+Proof.
+  intros RF Hd Hs Hn. pose proof (Refines_good _ _ RF) as G. pose proof RF as (_ & HS & K).
+  destruct (x_detach_ok s si d G Hd Hs Hn) as (s' & t & E & G' & _).
+  unfold x_detach, m_take in *. cbn beta iota zeta in *. inv_ok E. eexists. split; [reflexivity|].
+  rewrite (sslot_ref s ss RF). split; [assumption|]. split; [unfold sput; cbn [shs m_put hs]; rewrite HS; reflexivity|].
+  exact K.
+Qed.
+
+(* ---------- every operation ---------- *)
+Lemma sim_exec s ss o : Refines s ss -> guard (hs s) (kind_at s) (held s) o = true ->
+  exists s', exec s o = Ok (s', snd (sexec ss o)) /\ Refines s' (fst (sexec ss o)).
+Proof.
+  intros RF Hg. pose proof (Refines_good _ _ RF) as G. pose proof G as [I P].
+  destruct o; cbn [guard exec] in *;
+    repeat match goal with
+           | H : context [nth ?i (hs s) None] |- _ => change (nth i (hs s) None) with (slot s i) in H
+           end;
+    split_guard Hg.
+  - (* ONew *)
+    destruct (sim_new s ss k d RF (is_none_true _ Hg0) (kind_in_bank_bound _ _ Hg1)) as (s' & E & RF').
+    exists s'. split; [|exact RF']. rewrite E. f_equal. f_equal. cbn [sexec].
+    destruct (if is_static k then sfind is_static (sobjs ss) 0 else None); reflexivity.
+  - (* OMetaBuf *)
+    destruct (sim_metabuf s ss (slot s a) d RF (is_none_true _ Hg1) (eqb_bound _ _ Hg2 ltac:(lia))) as (s1 & id & E & RF').
+    { intros b Hb. split; [apply (H3_slot s a b Hb)|]. rewrite Hb in Hg0. cbn [is_none orb] in Hg0.
+      destruct (kind_is_spec s _ _ Hg0) as (b0 & y & Sb & Ey & By). inversion Sb; subst. eauto. }
+    rewrite E. cbn [bind sexec fst snd]. eexists. split; [reflexivity|]. rewrite (sslot_ref s ss RF). exact RF'.
+  - (* OAddref *)
+    destruct (is_none_false _ Hg1) as (o & S). rewrite S.
+    destruct (sim_addref s ss o d s0 RF S (is_none_true _ Hg0) (bank_same_bound _ _ Hg (or3_bound _ Hg2))) as (s' & r & E & RF' & Q1 & Q2).
+    rewrite E. cbn [bind sexec]. rewrite (sslot_ref s ss RF), S. exists s'.
+    destruct (shareable ss o); cbn [fst snd].
+    + split; [rewrite (Q2 eq_refl); reflexivity|exact RF'].
+    + cbn [negb] in Q1. apply N.eqb_eq in Q1. rewrite Q1. split; [reflexivity|exact RF'].
+  - (* OUnref *)
+    destruct (sim_unref s ss s0 RF) as (s' & E & RF'). exists s'. split; [exact E|exact RF'].
+  - (* OClone *)
+    destruct (is_none_false _ Hg1) as (o & S). rewrite S.
+    destruct (sim_clone s ss o d s0 RF S (is_none_true _ Hg0) (eqb_bound _ _ Hg2 ltac:(lia))) as (s' & t & E & RF' & ->).
+    exists s'. split; [exact E|exact RF'].
+  - (* OConv *)
+    destruct (sim_conv s ss s0 d RF (eqb_bound _ _ Hg0 ltac:(lia))) as (s' & t & E & RF' & ->).
+    exists s'. cbn [sexec]. destruct (s_share ss s0 d) as [s1 ok]. split; [exact E|exact RF'].
+  - (* ORefInit *)
+    assert (Hd : d < NSLOT).
+    { apply orb_prop in Hg1. destruct Hg1 as [H|H]; apply andb_prop in H; destruct H as [H _];
+        (eapply bank_same_bound; [exact Hg|]); eapply eqb_bound; try exact H; lia. }
+    destruct (sim_refinit s ss s0 d RF (is_none_true _ Hg0) Hd) as (s' & t & E & RF' & ->).
+    exists s'. cbn [sexec]. destruct (s_share ss s0 d) as [s1 ok]. split; [exact E|exact RF'].
+  - (* ORefFini *)
+    destruct (sim_unref s ss d RF) as (s' & E & RF'). exists s'. split; [exact E|exact RF'].
+  - (* ORefCopy *)
+    destruct (sim_refcopy s ss RF (is_none_true _ Hg) (is_none_true _ Hg1) (is_none_true _ Hg0)) as (s' & t & E & RF' & ->).
+    exists s'. cbn [sexec]. destruct (s_share ss 0 3) as [s1 ok1]. cbn [fst snd] in *.
+    destruct (s_share s1 1 4) as [s2 ok2]. cbn [fst snd] in *. destruct (s_share s2 2 5) as [s3 ok3]. cbn [fst snd] in *.
+    destruct (ok1 && ok2 && ok3); split; assumption.
+  - (* OArrClone *)
+    destruct (sim_arrclone s ss s0 d RF (eqb_bound _ _ Hg0 ltac:(lia))) as (s' & t & E & RF' & ->).
+    exists s'. split; [exact E|exact RF'].
+  - (* OArrClear *)
+    destruct (sim_arrclear s ss d RF) as (s' & t & E & RF' & ->). exists s'. split; [exact E|exact RF'].
+  - (* ODetach *)
+    destruct (kind_is_spec s _ _ Hg0) as (o & x & S & _). rewrite S.
+    destruct (sim_detach s ss a o RF S (eqb_bound _ _ Hg ltac:(lia)) Hg0) as (s' & t & E & RF' & ->).
+    exists s'. split; [exact E|exact RF'].
+  - (* ODetachF *)
+    destruct (kind_is_spec s _ _ Hg0) as (o & x & S & _). rewrite S.
+    destruct (sim_detachf s ss a o RF S Hg0) as (s' & t & E & RF' & ->).
+    exists s'. split; [exact E|]. cbn [sexec]. rewrite (sslot_ref s ss RF), S. exact RF'.
+  - (* OSetInner *)
+    destruct (kind_is_spec s _ _ Hg1) as (o & x & S & _). rewrite S.
+    destruct (sim_setinner s ss m o a RF S Hg1 Hg0) as (s' & t & E & RF' & ->). exists s'. split; [exact E|exact RF'].
+  - (* ODefer *)
+    destruct (kind_is_spec s _ _ Hg1) as (o & x & S & _). rewrite S.
+    destruct (sim_addref s ss o d s0 RF S (is_none_true _ Hg0) (eqb_bound _ _ Hg2 ltac:(lia))) as (s' & r & E & RF' & Q1 & _).
+    rewrite E. cbn [bind sexec]. rewrite (sslot_ref s ss RF), S, Q1. exists s'.
+    destruct (shareable ss o); cbn [fst snd negb]; split; try reflexivity; exact RF'.
+  - (* OForce *)
+    destruct (kind_is_spec s _ _ Hg3) as (o & x & S & _). rewrite S in Hg0 |- *.
+    destruct (sim_force s ss s0 o v RF S Hg3 Hg2 Hg1 Hg0) as (s' & t & E & RF' & ->). exists s'. split; [exact E|exact RF'].
+  - (* OUnforce *)
+    destruct (sim_unforce s ss RF) as (s' & E & RF'). rewrite E. cbn [bind]. exists s'. split; [reflexivity|exact RF'].
+  - (* XNew *)
+    destruct (sim_xnew s ss d RF (eqb_bound _ _ Hg ltac:(lia))) as (s' & E & RF'). exists s'. split; [|exact RF'].
+    rewrite E. reflexivity.
+  - (* XAssign *)
+    destruct (sim_xassign s ss s0 d RF (eqb_bound _ _ Hg0 ltac:(lia))) as (s' & E & RF'). exists s'. split; [|exact RF'].
+    rewrite E. cbn [sexec]. destruct (eq_opt (sslot ss s0) (sslot ss d)); reflexivity.
+  - (* XCopy *)
+    destruct (sim_xcopy s ss s0 d RF (eqb_bound _ _ Hg1 ltac:(lia))) as (s' & E & RF'). exists s'. split; [exact E|exact RF'].
+  - (* XMove *)
+    destruct (sim_xmove s ss s0 d RF (eqb_bound _ _ Hg0 ltac:(lia))) as (s' & E & RF'). exists s'. split; [exact E|exact RF'].
+  - (* XDetach *)
+    destruct (sim_xdetach s ss s0 d RF (eqb_bound _ _ Hg1 ltac:(lia)) (is_none_true _ Hg0)) as (s' & E & RF').
+    { intros ->. apply Nat.eqb_eq in Hg, Hg1. lia. }
+    exists s'. split; [exact E|exact RF'].
+  - (* XSetInst *)
+    destruct (sim_xmove s ss s0 d RF (eqb_bound _ _ Hg0 ltac:(lia))) as (s' & E & RF'). exists s'. split; [exact E|exact RF'].
+  - (* XDrop *)
+    destruct (sim_unref s ss d RF) as (s' & E & RF'). exists s'. split; [exact E|exact RF'].
+Qed.
+
+Lemma Refines_clear s ss : Refines s ss -> Refines (clear_log s) ss.
+Proof. intros (G & HS & K). split; [apply Good_clear, G|]. split; [exact HS|exact K]. Qed.
+
+(* step refinement: same output, related successor states — for EVERY operation from EVERY related pair *)
+Lemma sim_step s ss o : Refines s ss ->
+  exists s', step s o = Ok (s', snd (sstep ss o)) /\ Refines s' (fst (sstep ss o)).
+Proof.
+  intros RF. pose proof (Refines_clear s ss RF) as RC. unfold step, sstep.
+  rewrite (guard_ref (clear_log s) ss o RC).
+  destruct (guard (hs (clear_log s)) (kind_at (clear_log s)) (held (clear_log s)) o) eqn:Hg.
+  - apply (sim_exec (clear_log s) ss o RC Hg).
+  - exists (clear_log s). split; [reflexivity|exact RC].
+Qed.
+
+Lemma Refines_init : Refines init sinit.
+Proof. split; [apply Good_init|]. split; [reflexivity|]. constructor. Qed.
+
+(* history refinement: the model's observation sequence (call log aside) IS the specification's *)
+Lemma sim_run ops : forall s ss, Refines s ss ->
+  map strip (fst (mrun s ops)) = fst (srun ss ops) /\
+  exists s', final s ops = Some s' /\ Refines s' (snd (srun ss ops)).
+Proof.
+  induction ops as [|o r IH]; intros s ss RF.
+  - split; [reflexivity|]. exists s. split; [reflexivity|exact RF].
+  - destruct (sim_step s ss o RF) as (s1 & E & RF1). unfold final in *. cbn [mrun srun]. rewrite E.
+    destruct (sstep ss o) as [ss1 t]. cbn [fst snd] in *.
+    destruct (IH s1 ss1 RF1) as (EQ & s' & F & RF').
+    destruct (mrun s1 r) as [l f]. destruct (srun ss1 r) as [l' f']. cbn [fst snd map] in *.
+    split; [rewrite (observe_ref s1 ss1 RF1 t), EQ; reflexivity|]. exists s'. split; assumption.
+Qed.
